@@ -75,7 +75,8 @@ def oracle(ctx, case, res, real):
     for key in ("read1_with_adapter", "read2_with_adapter"):
         if (rc.get(key) or 0) > n:
             ctx.failures.append(Failure("C04/with-adapter-count", "more reads counted as 'with adapter' than there are reads", inp, {key: rc.get(key)}, n))
-    if "--info-file" in argv and "texts" in real2 and "info.txt" in real2["texts"]:
+    if "--info-file" in argv and "texts" in real2 and "info.txt" in real2["texts"] and not any(o in argv for o in ("--rename", "-x", "-y", "--strip-suffix")):
+        # (with a renaming option the names in the info file need not be distinct any more)
         with_rows = {l.split("\t")[0] for l in real2["texts"]["info.txt"] if l.split("\t")[1] != "-1"}
         if (rc.get("read1_with_adapter") or 0) != len(with_rows):
             ctx.failures.append(Failure("C04/with-adapter-count", "read1_with_adapter differs from the number of reads that have a match row in the info file",
